@@ -200,6 +200,9 @@ def run_check(prop_id, obls, tier, seed, args, t0):
         a["labels"].update(r["labels"])
         a["nt"].update(r["nt"])
         a["inconclusive"] += r["inconclusive"]
+        for c in r.get("inconclusive_cases", []):
+            write_replay(prop_id, r["oname"], f"{prop_id}/{r['oname']}/inconclusive-timeout", c, "case hit the per-case time limit", seed, tier,
+                         prefix="inconclusive")
         a["samples"] += r["samples"][:1]
         a["nt_samples"] += r["nt_samples"][:1]
         for sig, v in r["viol"].items():
